@@ -14,7 +14,10 @@ package pipeline
 //   order 3: the chain ends with a harness-owned HOLDING action (ActionHold / ActionCollapse, like join):
 //            a run is opened, so that the processor has a busy action, and then every event (and a
 //            time-out event, which is not judged) goes through processor.doActions again: "Do invoked"
-//            of the recording actions must still be the decision for (rule, event) alone.
+//            of the recording actions must still be the decision for (rule, event) alone;
+//   order 4: every event once more as a CHILD event, created by the real processor.Spawn (SetChildKind,
+//            chain entered at the action after the spawning one): time-out is the only kind that is
+//            exempt from the selector.
 
 import (
 	"bufio"
@@ -66,11 +69,12 @@ type c14Out struct {
 	R1  string `json:"r1,omitempty"`
 	R2  string `json:"r2,omitempty"`
 	R3  string `json:"r3,omitempty"` // Do invoked while another action of the processor is busy
+	R4  string `json:"r4,omitempty"` // Do invoked for the event as a child event (processor.Spawn)
 }
 
 // recording action: notes for which event its Do was invoked (slot len(events) = "not judged")
 type c14Rec struct {
-	hits  [2][]bool // [0] order 1, [1] order 3
+	hits  [3][]bool // [0] order 1, [1] order 3, [2] order 4
 	cur   *int
 	phase *int
 }
@@ -83,7 +87,10 @@ func (a *c14Rec) Do(*Event) ActionResult {
 }
 
 // holding action (no selector): what join / join_template / k8s multi-line do to the processor
-type c14Holder struct{ mode *int } // 0 pass, 1 hold, 2 collapse
+type c14Holder struct {
+	mode *int   // 0 pass, 1 hold, 2 collapse, 3 discard and tell the harness that one event went through the chain
+	next func() // mode 3
+}
 
 func (a *c14Holder) Start(AnyConfig, *ActionPluginParams) {}
 func (a *c14Holder) Stop()                                {}
@@ -93,6 +100,9 @@ func (a *c14Holder) Do(*Event) ActionResult {
 		return ActionHold
 	case 2:
 		return ActionCollapse
+	case 3:
+		a.next()
+		return ActionDiscard
 	}
 	return ActionPass
 }
@@ -154,7 +164,7 @@ func c14Build(r *c14Rule, ext map[int]*c14Extract) (info *ActionPluginStaticInfo
 	return info, nil
 }
 
-func c14RunChunk(rules []*c14Rule, ext map[int]*c14Extract, roots []*insaneJSON.Root, rng *rand.Rand, emit func(*c14Out)) {
+func c14RunChunk(rules []*c14Rule, ext map[int]*c14Extract, roots []*insaneJSON.Root, evs []string, rng *rand.Rand, emit func(*c14Out)) {
 	p := newProcessor(0, nil, atomic.NewInt32(0), nil, nil, func(*Event, bool, bool) {}, func(...string) {}, func() {})
 	cur, phase, mode := 0, 0, 0
 	n := len(roots)
@@ -167,7 +177,7 @@ func c14RunChunk(rules []*c14Rule, ext map[int]*c14Extract, roots []*insaneJSON.
 			continue
 		}
 		rec := &c14Rec{cur: &cur, phase: &phase}
-		rec.hits[0], rec.hits[1] = make([]bool, n+1), make([]bool, n+1)
+		rec.hits[0], rec.hits[1], rec.hits[2] = make([]bool, n+1), make([]bool, n+1), make([]bool, n+1)
 		p.AddActionPlugin(&ActionPluginInfo{
 			ActionPluginStaticInfo: info,
 			PluginRuntimeInfo:      &PluginRuntimeInfo{Plugin: rec, ID: "verif_c14"},
@@ -180,9 +190,10 @@ func c14RunChunk(rules []*c14Rule, ext map[int]*c14Extract, roots []*insaneJSON.
 	}
 	// last in the chain: the holding action, selector-less as a plain join would be
 	holderIdx := len(live)
+	holder := &c14Holder{mode: &mode}
 	p.AddActionPlugin(&ActionPluginInfo{
 		ActionPluginStaticInfo: &ActionPluginStaticInfo{PluginStaticInfo: &PluginStaticInfo{Type: "verif_c14_hold"}},
-		PluginRuntimeInfo:      &PluginRuntimeInfo{Plugin: &c14Holder{mode: &mode}, ID: "verif_c14_hold"},
+		PluginRuntimeInfo:      &PluginRuntimeInfo{Plugin: holder, ID: "verif_c14_hold"},
 	})
 	events := make([]*Event, len(roots))
 	for i, root := range roots {
@@ -245,6 +256,44 @@ func c14RunChunk(rules []*c14Rule, ext map[int]*c14Extract, roots []*insaneJSON.
 			phase = 0
 		}()
 	}
+	// order 4: child events through the real processor.Spawn; the last action discards them (no router here)
+	if chainErr == "" {
+		func() {
+			defer func() {
+				if pv := recover(); pv != nil {
+					chainErr = fmt.Sprintf("panic in Spawn/doActions (child events) at event %d: %v", cur, pv)
+				}
+			}()
+			perm4 := rng.Perm(n)
+			// Spawn re-parents the nodes it is given: use private copies of the events
+			nodes := make([]*insaneJSON.Node, n)
+			for j, i := range perm4 {
+				own := insaneJSON.Spawn()
+				defer insaneJSON.Release(own)
+				if err := own.DecodeString(evs[i]); err != nil {
+					panic("harness: " + err.Error())
+				}
+				nodes[j] = own.Node
+			}
+			pos := 0
+			holder.next = func() {
+				pos++
+				if pos < n {
+					cur = perm4[pos]
+				} else {
+					cur = n
+				}
+			}
+			phase, mode, cur = 2, 3, perm4[0]
+			parent := &Event{Root: insaneJSON.Spawn()}
+			parent.action = -1 // as if the spawning action stood in front of the chain
+			p.Spawn(parent, nodes)
+			if pos != n {
+				panic(fmt.Sprintf("harness: %d of %d child events went through the chain", pos, n))
+			}
+			phase, mode = 0, 0
+		}()
+	}
 	// order 2: isMatch directly, rule by rule, events permuted
 	perm := make([]int, len(roots))
 	for i := range perm {
@@ -266,6 +315,7 @@ func c14RunChunk(rules []*c14Rule, ext map[int]*c14Extract, roots []*insaneJSON.
 		}()
 		if out.Err == "" {
 			out.R1, out.R2, out.R3 = c14Bits(recs[k].hits[0][:n]), c14Bits(r2), c14Bits(recs[k].hits[1][:n])
+			out.R4 = c14Bits(recs[k].hits[2][:n])
 		}
 		emit(out)
 	}
@@ -339,7 +389,7 @@ func TestVerifC14(t *testing.T) {
 	var chunk []*c14Rule
 	flush := func() {
 		if len(chunk) > 0 {
-			c14RunChunk(chunk, ext, roots[chunk[0].Set], rng, emit)
+			c14RunChunk(chunk, ext, roots[chunk[0].Set], cs.Events[chunk[0].Set], rng, emit)
 			chunk = chunk[:0]
 		}
 	}
